@@ -264,6 +264,9 @@ def r12_4(ctx):
 
 @rule("R12.5", "C12", "registers: what the READ block initialises is exactly what reads consume (initialise / read tables agree)", min_instances=7)
 def r12_5(ctx):
+    from .c07 import r07_2
+
+    r07_2(ctx)  # the access class comes from the register letter: a write-only letter (d, e) classified as read-write gets a READ_REG nobody consumes
     idx = get_index(ctx.env)
     fi = idx.func("Register.il_init_var")
     fr = idx.func("Register.il_read")
@@ -492,6 +495,10 @@ def r12_12(ctx):
     from .c09 import literal_classes_are_inlined
 
     literal_classes_are_inlined(ctx)  # a literal that is declared instead of inlined is initialised and never consumed by the effect that prints its value
+    from .c06 import r06_7, ternary_guard_checks
+
+    r06_7(ctx)  # the sequence chk_hybrid_dep hands back is the one that is stored / returned: a dropped wrapper is an initialised effect nobody references, and its members get two owners
+    ternary_guard_checks(ctx, pending=False)  # the statement of a ({...}) arm is referenced through its guard (else the statement's effect is initialised and its text rendered a second time)
 
 
 CONVERTING_HELPERS = {"promotion_cast", "init_a_cast", "cast_operands", "add_op"}
